@@ -239,6 +239,18 @@ pub const TABLE: &[D] = &[
     ], frags: &["x:89504e470d0a1a0a", "x:89504e470d0a1a", "x:89504e47", "x:89", "x:ffd8ffe000104a46494600", "x:ffd8ffe000104a464946", "x:ffd8ffe0", "x:ffd8", "x:ff", "GIF89a", "GIF89", "GIF",
                "x:00", "x:0000", "x:7f454c46020101000000000000000000", "x:7f454c460201010000000000000000", "x:7f454c4602", "x:7f", "x:01", "x:41"] },
 
+    // "rest of the input" tokens: a state whose only edge covers every byte and loops to itself (byte mode), its
+    // Unicode counterpart, and a bounded variant; the token is never final before the real end of input
+    D { name: "Trailer", utf8: false, attrs: &[], skips: &[(r#"r"[ \n]+""#, 2, "")], pats: &[
+        rx(r#"b"(?s)__END__.*""#, 20, Cb::Unit, "allow_greedy = true", "Trailer"), r(r#"b"[a-z]+""#, 2, "Word"), t(r#"b"_""#, 2, "Under"),
+        rx(r#"b"(?s-u)#!.*""#, 8, Cb::Len, "allow_greedy = true", "Shebang"), r(r#"b"(?s-u)@.{2}""#, 6, "At2"), t(r#"b"@""#, 2, "At"),
+    ], frags: &["__END__", "__END__ x", "__END", "_", "__", "abc", " ", "\n", "#!", "#! /bin/sh\n", "#", "@", "@ab", "@a", "x:ff", "x:00", "__END__\nrest x:ff"] },
+
+    D { name: "TrailerStr", utf8: true, attrs: &[], skips: &[(r#"r"[ \n]+""#, 2, "")], pats: &[
+        rx(r#"r"(?s)__END__.*""#, 20, Cb::Unit, "allow_greedy = true", "Trailer"), r(r#""[a-z]+""#, 2, "Word"), t(r#""_""#, 2, "Under"),
+        rx(r#"r"--[^\n]*""#, 6, Cb::Unit, "allow_greedy = true", "Comment"), t(r#""-""#, 2, "Dash"),
+    ], frags: &["__END__", "__END__ x", "__END", "_", "__", "abc", " ", "\n", "--", "-- c", "-", "é", "__END__\né€"] },
+
     // ---- stateful definitions (`extras = Ctr`): a streaming consumer carries the counter from lexer to lexer; every
     // stateful callback must run exactly once per final match, whatever the chunking (oracle X1)
     D { name: "Lines", utf8: true, attrs: &[], skips: &[(r#"r"[ \t]+""#, 2, "")], pats: &[
